@@ -201,18 +201,13 @@ func (server *SugarDB) getValues(ctx context.Context, keys []string) map[string]
 				if err != nil {
 					log.Printf("keyExists: %+v\n", err)
 				}
-			} else if server.isInCluster() && server.raft.IsRaftLeader() {
-				// If we're in a raft cluster, and we're the leader, send command to delete the key in the cluster.
-				err := server.raftApplyDeleteKey(ctx, key)
-				if err != nil {
-					log.Printf("keyExists: %+v\n", err)
-				}
-			} else if server.isInCluster() && !server.raft.IsRaftLeader() {
-				// Forward message to leader to initiate key deletion.
-				// This is always called regardless of ForwardCommand config value
-				// because we always want to remove expired keys.
-				server.memberList.ForwardDeleteKey(ctx, key)
 			}
+			// In a raft cluster the expired key only reads as absent here, as it does in keysExist,
+			// getExpiry and setValues. Replicating a deletion from this place cannot work: the store
+			// lock is held (the state machine needs it to apply the entry) and, when the caller is the
+			// state machine itself, raft.Apply waits for the very goroutine that is calling it; and a
+			// "delete-key" entry that reaches the log after the key has been written again removed
+			// the new value on every node.
 			values[key] = nil
 			continue
 		}
